@@ -108,6 +108,7 @@ func runC10Wiring(c caseC10Wiring, rec *kit.Recorder) error {
 		{Kind: "pause_cc", Protocol: "PROTOCOL_CCTP", Ids: []string{"5"}},
 		{Kind: "pause_cc", Protocol: "PROTOCOL_HYPERLANE", Ids: []string{"7"}},
 		{Kind: "pause_action", Action: "ACTION_SWAP"},
+		{Kind: "pause_cc", Protocol: "PROTOCOL_CCTP", Ids: c10Batch},
 	} {
 		a.Signer = want
 		m, _ := kit.BuildAdmin(a)
